@@ -82,6 +82,13 @@ class VFS_Real:
                 fd.write(data)
 
 
+def is_real_vfs(vfs: VFS_Real) -> bool:
+    """True only for the real file system.  Virtual file systems (VFSZip)
+    subclass VFS_Real, so isinstance() cannot tell them apart, and the paths
+    they return from getfspath() do not exist on disk."""
+    return type(vfs) is VFS_Real
+
+
 class BaseHandler:
     """Skeleton handler -- includes commonly-used routines."""
 
